@@ -192,12 +192,12 @@ static int check_call(int ep, const char *buf, size_t len, int rnt, const jv *va
 /* C08: every single allocation failure during a parse of this buffer */
 static void failinject(const char *buf, size_t len, int rnt)
 {
-    long m, k; const char *end; cJSON *t, *ref;
+    long m, k; const char *end; cJSON *t, *ref; static const char other[4] = "[1,"; const char *sentinel = other + 2;   /* what an earlier, unrelated parse left in the caller's variable */
     al_window(0); ref = cJSON_ParseWithLengthOpts(buf, len, &end, rnt); m = al_allocs;
     for (k = 1; k <= m; k++) {
         long live0 = al_live;
         if (!VD_TRY()) { al_in_call = 0; viol("C08", "parse with allocation request %ld of %ld refused: memory fault", k, m); return; }
-        al_window(k); t = cJSON_ParseWithLengthOpts(buf, len, &end, rnt); al_fail_at = 0; failinj_runs++;
+        al_window(k); end = sentinel; t = cJSON_ParseWithLengthOpts(buf, len, &end, rnt); al_fail_at = 0; failinj_runs++;
         if (t) {      /* C08: "either completes normally or reports failure": a call that gets by without the refused block (keeps a larger buffer, say) completed normally */
             VD.drift++;
             if (!ref || !trees_equal(ref, t)) viol("C08 C02", "parse with allocation request %ld of %ld refused returned a tree that differs from the one it returns otherwise", k, m);
@@ -205,7 +205,9 @@ static void failinject(const char *buf, size_t len, int rnt)
             if (al_live != live0) viol("C08", "parse with allocation request %ld of %ld refused (and completed) leaves %ld block(s) allocated after the tree was deleted", k, m, al_live - live0);
         }
         else if (al_live != live0) viol("C08", "parse with allocation request %ld of %ld refused leaves %ld block(s) allocated", k, m, al_live - live0);
-        else if (cJSON_GetErrorPtr() == NULL) viol("C08", "parse failed (request %ld refused) without an error position", k);
+        else if (cJSON_GetErrorPtr() == NULL) viol("C08 C10", "parse failed (request %ld refused) without an error position", k);
+        if (!t && len > 0 && (end != cJSON_GetErrorPtr() || end < buf || end >= buf + len))      /* C10, failure clause: whatever made the parse fail */
+            viol("C10", "parse failed (allocation request %ld of %ld refused): the reported error position %s", k, m, end == sentinel ? "was not stored" : end != cJSON_GetErrorPtr() ? "differs from cJSON_GetErrorPtr()" : "lies outside the buffer");
         if (al_bad_free) viol("C08", "parse with request %ld refused: invalid release", k);
         VD_END();
     }
@@ -452,6 +454,46 @@ static void deep_cases(void)
 #endif
 }
 
+/* ------------------------------------------------------------------ breadth: many small containers / values side by side in a shallow text.
+ * The grammar of JsonText.tla bounds DEPTH only (G's depth argument is passed down, never accumulated across siblings); k siblings of any kind are one
+ * level.  Texts are written in the printer's unformatted layout, so the expected tree is checked twice: by walking it (k children of the element's shape)
+ * and by printing it back (byte-identical). */
+static long breadth_cases_run;
+static void breadth_cases(void)
+{
+    static const struct { const char *elem; int type; int kids; } E[] = { { "[]", cJSON_Array, 0 }, { "{}", cJSON_Object, 0 }, { "[1]", cJSON_Array, 1 }, { "{\"a\":1}", cJSON_Object, 1 },
+        { "\"s\"", cJSON_String, 0 }, { "1", cJSON_Number, 0 }, { "null", cJSON_NULL, 0 }, { "\"\\\\\"", cJSON_String, 0 } };
+    static const int K[] = { 998, 999, 1000, 1001, 1200, 2600 };
+    size_t e, ki; int asobj, wrap;
+    for (e = 0; e < sizeof(E) / sizeof(E[0]); e++) for (ki = 0; ki < sizeof(K) / sizeof(K[0]); ki++) for (asobj = 0; asobj < 2; asobj++) for (wrap = 0; wrap < 2; wrap++) {
+        int k = K[ki], i, depth = 1 + wrap + (E[e].type == cJSON_Array || E[e].type == cJSON_Object ? 1 : 0); size_t el = strlen(E[e].elem), cap = (size_t)k * (el + 12) + 16, n = 0; char *s; cJSON *t, *c, *top; int cnt = 0, bad = 0; char *p;
+        if (depth > CJSON_NESTING_LIMIT) continue;
+        if ((ki + e + (size_t)asobj) % 2 && k != 1000 && k != 1001) continue;           /* half of the off-limit sizes */
+        s = (char*)malloc(cap);
+        if (wrap) s[n++] = '[';
+        s[n++] = asobj ? '{' : '[';
+        for (i = 0; i < k; i++) { if (i) s[n++] = ','; if (asobj) n += (size_t)sprintf(s + n, "\"k%d\":", i); memcpy(s + n, E[e].elem, el); n += el; }
+        s[n++] = asobj ? '}' : ']';
+        if (wrap) s[n++] = ']';
+        s[n] = 0;
+        al_case_begin(); VD.cases++; breadth_cases_run++;
+        if (!VD_TRY()) { viol("*", "%d elements %s side by side: memory fault in the parser", k, E[e].elem); free(s); continue; }
+        t = (ki % 2) ? cJSON_ParseWithLength(s, n) : cJSON_Parse(s);
+        if (!t) viol("C02", "a valid text of nesting depth %d with %d elements %s side by side (%s%s) is rejected", depth, k, E[e].elem, asobj ? "object members" : "array elements", wrap ? ", inside an array" : "");
+        else {
+            top = wrap ? t->child : t;
+            if (!top || (top->type & 0xFF) != (asobj ? cJSON_Object : cJSON_Array) || (wrap && (top->next || (t->type & 0xFF) != cJSON_Array))) bad = 1;
+            else for (c = top->child; c; c = c->next) { int kc = 0; cJSON *g; cnt++; for (g = c->child; g; g = g->next) kc++; if ((c->type & 0xFF) != E[e].type || kc != E[e].kids) bad = 1; if (cnt > k) break; }
+            if (bad || cnt != k) viol("C02", "%d elements %s side by side: the tree has %d children / a child of another shape", k, E[e].elem, cnt);
+            p = cJSON_PrintUnformatted(t);
+            if (!p || strcmp(p, s)) viol("C02 C04", "%d elements %s side by side: the tree prints as something else than the text it was parsed from", k, E[e].elem);
+            cJSON_free(p); cJSON_Delete(t);
+        }
+        if (al_live != 0) viol("C01 C03", "%d elements %s side by side: %ld block(s) remain allocated", k, E[e].elem, al_live);
+        VD_END(); vd_tick(); free(s);
+    }
+}
+
 /* A release hook that itself parses (and fails on) a private text: allowed - the library has no state but the hooks and the error position.
  * The outer, failing parse must still report ITS position: inside its own buffer, equal to cJSON_GetErrorPtr() (C10); the same ordering matters
  * when another thread parses in between (C20). */
@@ -508,6 +550,7 @@ int vd_parse_main(int argc, char **argv)
     region_init();
     vd_install_handlers();
     deep_cases();
+    breadth_cases();
     if (!default_hooks) reentrancy_cases();
     if (default_hooks) cJSON_InitHooks(NULL); else cJSON_InitHooks(&hooks);
     while ((len = getline(&line, &cap, stdin)) > 0 || (len < 0 && errno == EINTR && !feof(stdin) && (clearerr(stdin), 1))) {
